@@ -3,9 +3,13 @@ package main
 import (
 	"fmt"
 	"strings"
+	"time"
+
+	"github.com/zmap/zcrypto/x509/pkix"
 
 	"github.com/zmap/zcrypto/x509"
 	"github.com/zmap/zlint/v3/lint"
+	"github.com/zmap/zlint/v3/util"
 )
 
 var presenceLintNames = []string{"e_sub_cert_country_name_must_appear", "e_sub_cert_locality_name_must_appear", "e_sub_cert_locality_name_must_not_appear", "e_sub_cert_postal_code_must_not_appear",
@@ -50,4 +54,115 @@ func presenceCase(c *x509.Certificate) (string, string, bool) {
 	view := fmt.Sprintf("(mkSubj %d %d %d %d %d %d %d %d %s %d %s)", len(s.Organization), len(s.GivenName), len(s.Surname), len(s.Country), len(s.Locality), len(s.Province),
 		len(s.StreetAddress), len(s.PostalCode), cqBool(s.CommonName == ""), len(s.CommonNames), cqTyped(types, "oid"))
 	return fmt.Sprintf("(%s, %s)", view, cqList(sts)), tag[:len(tag)-1], true
+}
+
+var evLintNames = []string{"e_ev_business_category_missing", "e_ev_country_name_missing", "e_ev_organization_name_missing", "e_ev_serial_number_missing", "e_ev_san_ip_address_present"}
+
+// evCase: one correspondence case for Kernels/EvPresence.v (bodies called directly under recover).
+func evCase(c *x509.Certificate) (string, string, bool) {
+	var types []string
+	for _, atv := range c.Subject.Names {
+		var parts []string
+		for _, a := range atv.Type {
+			parts = append(parts, fmt.Sprint(a))
+		}
+		types = append(types, "["+strings.Join(parts, ";")+"]")
+	}
+	var sts []string
+	tag := ""
+	for _, n := range evLintNames {
+		st := 0
+		if l := lint.GlobalRegistry().CertificateLints().ByName(n); l != nil {
+			func() {
+				defer func() {
+					if recover() != nil {
+						st = -1
+					}
+				}()
+				if r := l.Lint().Execute(c); r == nil {
+					st = -2
+				} else {
+					st = int(r.Status)
+				}
+			}()
+		}
+		sts = append(sts, cqZ(int64(st)))
+		tag += fmt.Sprintf("%d/", st)
+	}
+	return fmt.Sprintf("(mkEv %s %d %d, %s)", cqTyped(types, "oid"), len(c.Subject.SerialNumber), len(c.IPAddresses), cqList(sts)), tag[:len(tag)-1], true
+}
+
+var caSubjectLintNames = []string{"e_ca_common_name_missing", "e_ca_country_name_missing", "e_ca_organization_name_missing", "e_organizational_unit_name_prohibited",
+	"e_sub_cert_given_name_surname_contains_correct_policy", "e_subject_empty_without_san", "e_subj_country_not_uppercase", "e_validity_time_not_positive"}
+
+// caSubjectCase: one correspondence case for Kernels/CaSubject.v (bodies called directly under recover).
+func caSubjectCase(c *x509.Certificate) (string, string, bool) {
+	s := c.Subject
+	if (s.Country != nil && len(s.Country) == 0) || (s.Organization != nil && len(s.Organization) == 0) || (s.OrganizationalUnit != nil && len(s.OrganizationalUnit) == 0) {
+		return "", "", false // nil and empty differ for the bodies; the parser never produces an empty non-nil list
+	}
+	bl := func(l []string) string {
+		var items []string
+		for _, x := range l {
+			items = append(items, cqBytes(x))
+		}
+		return cqTyped(items, "bytes")
+	}
+	var pols []string
+	for _, id := range c.PolicyIdentifiers {
+		var parts []string
+		for _, a := range id {
+			parts = append(parts, fmt.Sprint(a))
+		}
+		pols = append(pols, "["+strings.Join(parts, ";")+"]")
+	}
+	var sts []string
+	tag := ""
+	for _, n := range caSubjectLintNames {
+		st := 0
+		if l := lint.GlobalRegistry().CertificateLints().ByName(n); l != nil {
+			func() {
+				defer func() {
+					if recover() != nil {
+						st = -1
+					}
+				}()
+				if r := l.Lint().Execute(c); r == nil {
+					st = -2
+				} else {
+					st = int(r.Status)
+				}
+			}()
+		}
+		sts = append(sts, cqZ(int64(st)))
+		tag += fmt.Sprintf("%d/", st)
+	}
+	hasSAN := util.IsExtInCert(c, util.SubjectAlternateNameOID)
+	view := fmt.Sprintf("(mkCs %s %s %s %d %s %s %s %s %s)", cqBool(s.CommonName == ""), bl(s.Country), bl(s.Organization), len(s.Names), cqBool(hasSAN), cqBool(s.OrganizationalUnit != nil),
+		cqTyped(pols, "oid"), cqZ(c.NotBefore.Unix()), cqZ(c.NotAfter.Unix()))
+	return fmt.Sprintf("(%s, %s)", view, cqList(sts)), tag[:len(tag)-1], true
+}
+
+// caSubjectProbes: bare certificate values for the verdicts the population does not reach (an empty subject without
+// subjectAltName; notBefore after notAfter; lower-case and empty country codes; a CA without organization).
+func caSubjectProbes() []*x509.Certificate {
+	t0 := time.Date(2024, 3, 1, 0, 0, 0, 0, time.UTC)
+	mk := func(f func(c *x509.Certificate)) *x509.Certificate {
+		c := &x509.Certificate{NotBefore: t0, NotAfter: t0.Add(24 * time.Hour)}
+		f(c)
+		return c
+	}
+	return []*x509.Certificate{
+		mk(func(c *x509.Certificate) {}),
+		mk(func(c *x509.Certificate) { c.NotAfter = t0.Add(-time.Second) }),
+		mk(func(c *x509.Certificate) { c.NotAfter = t0 }),
+		mk(func(c *x509.Certificate) {
+			e := pkix.Extension{Id: util.SubjectAlternateNameOID, Value: []byte{0x30, 0x00}}
+			c.Extensions = append(c.Extensions, e)
+			c.ExtensionsMap = map[string]pkix.Extension{util.SubjectAlternateNameOID.String(): e}
+		}),
+		mk(func(c *x509.Certificate) { c.Subject.Country = []string{"us"}; c.Subject.Names = append(c.Subject.Names, pkix.AttributeTypeAndValue{Type: []int{2, 5, 4, 6}, Value: "us"}) }),
+		mk(func(c *x509.Certificate) { c.Subject.Country = []string{""}; c.Subject.Organization = []string{""}; c.Subject.CommonName = "x" }),
+		mk(func(c *x509.Certificate) { c.Subject.Country = []string{"US", "D1"}; c.Subject.Organization = []string{"O"}; c.Subject.OrganizationalUnit = []string{"OU"} }),
+	}
 }
